@@ -44,6 +44,8 @@ def decOp : List String → Option Op
   | ["set_cells", x, y, m] => do
       let x ← x.toInt?; let y ← y.toInt?; let m ← decMatrix m
       pure (.setCells x y m)
+  | ["rstrip", a] => some (.rstrip (a == "1"))
+  | ["transpose"] => some .transpose
   | ["set_row_values", y, line] => do
       let y ← y.toInt?; let line ← decCells line
       pure (.setRow y ((expandCells line).map (fun v => (v, 1))) 1)
